@@ -205,6 +205,49 @@ def h_persist(p):
     return {"steps": steps_out}
 
 
+def _cdm_tables(lin, p, vth, tr, nt, sg):
+    """The factors the CDM loop evaluates at every (packet, species) of every line - a ** (beta - 1) and the capture
+    probability - computed with the float expressions of the source along the trajectory of the source's
+    bookkeeping; (0, 0) where the packet is below the 0.01 e- cut (the factors are not used there).  They drive
+    the exact-arithmetic Coq model for ANY beta; the comparison of that model's output with the real output is
+    what ties the two (a wrong trajectory here gives a mismatch, never an agreement)."""
+    beta, vg, t, fwc = p["beta"], p["vg"], p["t"], p["fwc"]
+    fwcb = fwc ** beta
+    alpha = t * sg * vth * fwcb / (2.0 * vg)
+    g = 2.0 * nt * vg / fwcb
+    rel = 1.0 - np.exp(-t / tr)
+    nk = len(nt)
+    tbls = []
+    for line in lin:
+        no = np.zeros(nk)
+        tbl = []
+        for i, a in enumerate(line):
+            a = float(a)
+            gamma = g * (p.get("ninj", 0) if p.get("inj") else i)
+            row = []
+            for k in range(nk):
+                nc = 0.0
+                if a > 0.01:
+                    bw = a ** (beta - 1.0)
+                    pc = 1.0 - np.exp(-1 * alpha[k] * a ** (1.0 - beta))
+                    row.append([float(bw).hex(), float(pc).hex()])
+                    nc = max((gamma[k] * a ** beta - no[k]) / (gamma[k] * bw + 1.0) * pc, 0.0)
+                    no[k] += nc
+                else:
+                    row.append([0.0.hex(), 0.0.hex()])
+                nr = no[k] * rel[k]
+                a += -1 * nc + nr
+                no[k] -= nr
+                if a < 0.01:
+                    a = 0.0
+            tbl.append(row)
+        tbls.append(tbl)
+    vals = [float.fromhex(v) for tbl in tbls for row in tbl for f in row for v in f] + list(g) + list(rel)
+    if not all(np.isfinite(vals)):
+        return None
+    return {"tbls": tbls, "gs": hx(g), "rs": hx(rel)}
+
+
 def h_cdm(p):
     """Lines are returned in transfer order: columns for the parallel direction, rows for the serial one."""
     from pyxel.models.charge_transfer.cdm import cdm, run_cdm_parallel, run_cdm_serial
@@ -212,6 +255,7 @@ def h_cdm(p):
     arr = np.array(p["frame"], dtype=float)
     par = p["direction"] == "parallel"
     tr, nt, sg = (np.array(p[k], dtype=float) for k in ("tr", "nt", "sigma"))
+    vth = p["vth"]
     if p["path"] == "func":
         kw = dict(array=arr.copy(), vg=p["vg"], t=p["t"], fwc=p["fwc"], vth=p["vth"], beta=p["beta"], tr=tr, nt=nt,
                   sigma=sg)
@@ -220,8 +264,14 @@ def h_cdm(p):
         else:
             out = run_cdm_serial(**kw)
     else:
+        import astropy.constants as const
+
         det = _det("ccd", arr.shape)
         det.pixel.array = arr.copy()
+        # the thermal velocity the wrapper computes (its default effective mass)
+        vth = float(100.0 * np.sqrt(3 * const.k_B.value * det.environment.temperature / (0.5 * const.m_e.value)))
+        if p.get("inj"):
+            p = dict(p, ninj=arr.shape[0])
         for _ in range(p.get("times", 1)):
             cdm(det, direction=p["direction"], beta=p["beta"], trap_release_times=list(p["tr"]),
                 trap_densities=list(p["nt"]), sigma=list(p["sigma"]), full_well_capacity=p["fwc"],
@@ -234,6 +284,12 @@ def h_cdm(p):
         return {"nonfinite": int(np.sum(~np.isfinite(out))), "n": int(out.size)}
     lin, lout = (arr.T, out.T) if par else (arr, out)
     res = {"lines_in": hx2(lin), "lines_out": hx2(lout)}
+    # (chains longer than 16 capture/release steps per line are too slow in exact arithmetic: specification only)
+    if not p.get("exact") and p.get("times", 1) == 1 and "corner" not in p and lin.shape[1] * len(nt) <= 16:
+        with np.errstate(all="ignore"):
+            tb = _cdm_tables(lin, p, vth, tr, nt, sg)
+        if tb is not None:
+            res.update(tb)
     if p.get("exact"):
         # beta = 1: the factors the code computes, evaluated here with the same float expressions
         with np.errstate(all="ignore"):
